@@ -71,6 +71,35 @@ def writer_scenarios(rng, tier, big=False):
     return scs
 
 
+def reuse_scenarios(rng, tier):
+    """Named outputs rotated onto names used before: the name in use (a -> a), and an earlier one (a -> b -> a)."""
+    scs = []
+    sid = 5000
+    for comp in ["none", "gz", "xz"]:
+        chunks = [{"id": 1, "n": 5000, "pat": "text"}, {"id": 2, "n": 700, "pat": "rand", "seed": 3},
+                  {"id": 3, "n": 70000, "pat": "rand", "seed": 5}, {"id": 4, "n": 9, "pat": "text"}]
+        shapes = [
+            [("w", 1), ("rot", 1), ("w", 2)],                          # a -> a, the second output shorter
+            [("w", 2), ("rot", 1), ("w", 3), ("w", 1)],                # a -> a, the second output longer
+            [("w", 3), ("w", 4), ("rot", 1), ("rot", 1), ("w", 4)],    # a -> a -> a with an empty output between
+            [("w", 1), ("rot", 2), ("w", 2), ("rot", 1), ("w", 4)],    # a -> b -> a
+        ]
+        if tier == "thorough":
+            shapes += [[("w", 4), ("rot", 2), ("w", 3), ("rot", 2), ("w", 1), ("rot", 1), ("w", 2), ("w", 2)],
+                       [("rot", 1), ("w", 1), ("rot", 1)]]
+        for sh in shapes:
+            sid += 1
+            steps = [{"op": "w", "c": a} if o == "w" else {"op": "rot", "to": a} for o, a in sh]
+            scs.append({"id": sid, "target": "writer", "comp": comp, "kind": "file", "chunks": chunks, "steps": steps})
+        for sh in ([[("rec", 9), ("wb", 0), ("rot", 1), ("rec", 3), ("wb", 0)],
+                    [("rec", 30), ("rot", 2), ("rec", 5), ("rot", 1), ("rec", 2), ("wb", 0)]]):
+            sid += 1
+            steps = [{"op": "rec", "n": a} if o == "rec" else {"op": "wb"} if o == "wb" else {"op": "rot", "to": a, "export": True}
+                     for o, a in sh]
+            scs.append({"id": sid, "target": "exporter", "comp": comp, "kind": "file", "max": 4, "steps": steps, "pre": []})
+    return scs
+
+
 def exporter_scenarios(rng, tier, comps=("none", "gz", "xz"), kinds=("file", "fd"), recover=False):
     scs = []
     sid = 1000
